@@ -90,16 +90,25 @@ fn build_history(ctx: &Ctx, st: &mut Stats, seed: u64, j: &J) {
     let nops = 1 + rng.below(14);
     let mut log: Vec<String> = Vec::new();
     let mut builds = 0;
+    let mut foreign_mode_pending = false;
     for step in 0..=nops {
         let last = step == nops;
         let choice = if last { 4 } else { rng.below(8) };
         match choice {
             0 => {
-                // only modes whose alphabet contains the input are inside the property
-                let m = class.max(rng.below(3));
+                // only modes whose alphabet contains the input are inside the property AT BUILD TIME; a third of the
+                // calls name any mode, also one that does not contain the input: such a value is replaced (below) before
+                // the next build and must leave no trace, not even on the stored input
+                let m = if rng.chance(1, 3) { rng.below(3) } else { class.max(rng.below(3)) };
                 b.mode(MODES[m]);
-                model.mode = Some(m);
                 log.push(format!("mode({m})"));
+                if m >= class {
+                    model.mode = Some(m);
+                    foreign_mode_pending = false;
+                } else {
+                    foreign_mode_pending = true;
+                    st.count("intermediate_modes_outside_the_input_alphabet", 1);
+                }
             }
             1 => {
                 let l = rng.below(4);
@@ -122,6 +131,13 @@ fn build_history(ctx: &Ctx, st: &mut Stats, seed: u64, j: &J) {
             4 | 5 => {
                 // build on the used builder; compare with a FRESH builder holding only the
                 // final option values, executed on a fresh thread
+                if foreign_mode_pending {
+                    let m = class.max(rng.below(3));
+                    b.mode(MODES[m]);
+                    model.mode = Some(m);
+                    log.push(format!("mode({m})"));
+                    foreign_mode_pending = false;
+                }
                 let reps = if rng.chance(1, 4) { 1 + rng.below(4) } else { 1 };
                 for _ in 0..reps {
                     st.eval();
@@ -156,6 +172,13 @@ fn build_history(ctx: &Ctx, st: &mut Stats, seed: u64, j: &J) {
             }
             _ => {
                 // A, B, A: the very same request twice with something else in between
+                if foreign_mode_pending {
+                    let m = class.max(rng.below(3));
+                    b.mode(MODES[m]);
+                    model.mode = Some(m);
+                    log.push(format!("mode({m})"));
+                    foreign_mode_pending = false;
+                }
                 st.eval();
                 let a1 = outcome_digest(&adapter::outcome_of(adapter::guarded(|| b.build())));
                 let (other, _) = random_input(&mut rng, 40, &ctx.caps);
